@@ -91,12 +91,15 @@ KVChange(m)      == /\ kv # m /\ kv' = m /\ kidx' = kidx + 1
                     /\ UNCHANGED <<inst, node, hidx, nfault>>
 \* the KV index moves although the text under the prefix is the same (another key was written)
 KVTouch          == /\ kidx' = kidx + 1 /\ UNCHANGED <<inst, node, kv, hidx, nfault>>
+\* the health index moves although no advertised instance changed (a registration without routing tags, another service)
+HealthTouch      == /\ hidx' = hidx + 1 /\ UNCHANGED <<inst, node, kv, kidx, nfault>>
 RegChange ==
     /\ nchg < MaxChanges /\ nchg' = nchg + 1
     /\ \/ \E i \in Inst, s \in InstState : InstChange(i, s)
        \/ \E n \in Node, s \in NodeState : NodeChange(n, s)
        \/ \E m \in Manual : KVChange(m)
        \/ KVTouch
+       \/ HealthTouch
     /\ UNCHANGED <<wsvars, wkvars, bevars>>
 
 \* ---- service watcher (registry/consul/service.go)
